@@ -14,6 +14,7 @@ func init() {
 			"PV-WHOLE: init is run-once, ranges over all sources, pushes one element {iterIdx: range index, record} per non-empty source; the heap field is written only through container/heap; sources advanced at exactly two sites",
 			"PV-WHOLE: Err and Close visit every source and aggregate every result",
 			"the openLog origin rule (each container is read under its own id)",
+			"ERR-PROP frame size: no failure exit of the frame decoder depends on the frame's size",
 		},
 		NotDecided: []string{"correctness of container/heap", "global sortedness (follows from the decided protocol + heap correctness + per-source order, argued in DESIGN.md)", "the race detector's dynamic view"},
 		Rules: func(r *Run) {
@@ -24,7 +25,8 @@ func init() {
 			ruleMergeIter(r)
 			ruleOpenLogContext(r)
 			ruleRecordOrigin(r)
-			ruleOpenLog(r) // each container is read under its own id
+			ruleOpenLog(r)            // each container is read under its own id
+			ruleFrameSizeNotJudged(r) // one stream failing on a long line ends the merged stream of all containers
 		},
 	})
 }
